@@ -74,7 +74,6 @@ class Ctx:
                            neg_groups=Sym("neg_groups", ("attr", "array", "notnone")),
                            groups=Sym("groups", ("attr", "array", "notnone")),
                            _grouped_scores=Dct(), nb_easy_pos=Const(0), nb_easy_neg=Const(0))
-            o.attrs["_grouped_scores"].unknown = True
         if extra:
             o.attrs.update(extra)
         return o
